@@ -62,7 +62,7 @@ _core_prop("C03", "Values() is a complete, duplicate-free, causally ordered line
 _core_prop("C04", "Every appended entry dominates the log it was appended to",
     r"append/.*",
     "Lean 4: theorems on the transcription of Append (predecessors = heads, clock above every entry via every_entry_below_some_head, single new head, references inside the log and disjoint from predecessors)",
-    "Kernel-checked for every reachable log, writer and pointer count (any integer): next = the heads (list: reversed sorted heads), clock id = the log's writer key, clock time strictly above every entry incl. merged ones, the entry becomes the single head, skip references are distinct entries of the log and not predecessors, and every entry of the log is in the new entry's causal past. The logarithmic bound on the number of references is evaluated on every implementation append (appendOk) and by model = implementation on refs; its Lean proof is not done yet (stated in DESIGN.md).",
+    "Kernel-checked for every reachable log, writer and pointer count (any integer): next = the heads (list: reversed sorted heads), clock id = the log's writer key, clock time strictly above every entry incl. merged ones, the entry becomes the single head, skip references are distinct entries of the log and not predecessors, every entry of the log is in the new entry's causal past, and there are at most floor(log2(max pc 1))+1 skip references (refs_logarithmic).",
     CORE_NOTE)
 _core_prop("C05", "The log is append-only: entries never change or vanish",
     r"(join|append|setid|exchange)/(entries|len|values|snapshot\.values)",
@@ -71,8 +71,8 @@ _core_prop("C05", "The log is append-only: entries never change or vanish",
     CORE_NOTE)
 _core_prop("C15", "Iteration returns the requested causal range, newest first, and always ends",
     r"iter/.*",
-    "Lean 4: theorems on the transcription of Iterator; traversal-free specification iterSpec evaluated on every implementation call",
-    "Kernel-checked on the model of Iterator: success always closes the channel (also amount 0 and amounts beyond the range), unknown upper bounds are errors that leave the channel untouched, the default iteration is the full linearisation newest first, at most `amount` entries. The full range statement (iterSpec) for arbitrary related bounds is evaluated on every implementation call and compared with the model; its general Lean proof covers unreferenced roots (traverse_spec) — see DESIGN.md.",
+    "Lean 4: relaxed worklist invariant for traversal from arbitrary roots (traverse_general, end hash, amount) and the range theorems of Iterator; traversal-free specification iterSpec evaluated on every implementation call",
+    "Kernel-checked on the model of Iterator: success always closes the channel (also amount 0 and amounts beyond the range), unknown upper bounds are errors, and for ANY upper bounds (also causally related ones) the emission is duplicate-free, newest first and exactly the causal past of the bounds (iter_full_spec via traverse_general); with a lower bound inside the range the output is the emission down to it (inclusive/exclusive), with an amount its last `amount` elements, without a lower bound a prefix of at most `amount` (exactly `amount` for unrelated bounds). The traversal-free specification iterSpec is additionally evaluated on every implementation call.",
     CORE_NOTE)
 _core_prop("C16", "A size-bounded merge keeps exactly the newest entries of the full merge",
     r"joinN/.*",
@@ -104,6 +104,7 @@ PROPS["C20"] = dict(
     rule="cases of 1-4 keystores x up to 400 ids incl. odd ids; ops create/get/has/has-never-created/createIdentity/sign/restart in PRNG order; non-trivial = a created key is read through a non-creator keystore, after a restart, or after >= 128 later creations",
 )
 
+PROPS_EXTRA = {"C06": ["Props.EffectFacts"], "C17": ["Props.EffectFacts"]}
 _core_prop("C06", "Merge admits only verified, authorised entries and is all-or-nothing",
     r"(join|joinN|append|tamper)/(join\..*|append\.denied|entries|len|heads|rawheads|values|clock|snapshot\..*|json\.heads)",
     "Lean 4: theorems on the transcription of Join with an abstract per-candidate validity predicate (join_rejects, join_admits for every size bound, heads admitted), denied append, create-then-verify under an abstract codec/crypto; differential replay with access-controller denial and tampered source logs",
@@ -205,3 +206,6 @@ PROPS["C17"] = dict(
     design_ref="§8 C17",
     rule="crash stream: 2-4 replicas (few writers, so replicas often share an identity and identical blocks arise), some read-only (denying) replicas, 12-32 ops of append (small payload alphabet)/join/publish; every write prefix checked; up to 14 returned identifiers x 2 store snapshots loaded; distinct = distinct operation shapes; non-trivial = at least one successful append",
 )
+
+for _pid, _t in PROPS_EXTRA.items():
+    PROPS[_pid]["extra_targets"] = PROPS[_pid].get("extra_targets", []) + _t
